@@ -91,7 +91,9 @@ class VSQS(Ansatz):
             """Remove consant term and convert QubitOperator to list of (term, coeff)"""
             new_qu_op = qu_op - qu_op.constant
             new_qu_op.compress()
-            return list(new_qu_op.terms.items())
+            # Terms without a (numerically significant) real coefficient produce no gate when exponentiated: they must not
+            # be counted either, as the parameter updates rely on one variational gate per listed term.
+            return [(term, coeff) for term, coeff in new_qu_op.terms.items() if abs(np.real(coeff)) / self.trotter_order > 1.e-10]
 
         self.h_final_list = qu_op_to_list(self.h_final)
         self.n_h_final = len(self.h_final_list)
